@@ -209,6 +209,30 @@ func (wb *Workbook) parseSheet(path string) (*Sheet, error) {
 // Cell returns the text of a cell ("" when empty).
 func (s *Sheet) Cell(row, col int) string { return strings.TrimSpace(s.Rows[row][col]) }
 
+// ClearCell empties a cell (the element stays, without a value or a type), as deleting its content in a spreadsheet
+// program does. A cell that does not exist is left alone.
+func (wb *Workbook) ClearCell(sheet *Sheet, row, col int) {
+	xmlb := wb.files[sheet.Path]
+	pfx := ""
+	if m := regexp.MustCompile(`<(\w+:)?sheetData`).FindSubmatch(xmlb); m != nil {
+		pfx = string(m[1])
+	}
+	q := regexp.QuoteMeta(pfx)
+	ref := ColName(col) + strconv.Itoa(row)
+	reFull := regexp.MustCompile(`(?s)<` + q + `c r="` + ref + `"([^>]*?)(\s*/>|>.*?</` + q + `c>)`)
+	loc := reFull.FindSubmatchIndex(xmlb)
+	if loc == nil {
+		return
+	}
+	attrs := string(xmlb[loc[2]:loc[3]])
+	attrs = regexp.MustCompile(`\s+t="[^"]*"`).ReplaceAllString(attrs, "")
+	attrs = strings.TrimRight(attrs, " ")
+	out := append([]byte{}, xmlb[:loc[0]]...)
+	out = append(out, (`<` + pfx + `c r="` + ref + `"` + attrs + `/>`)...)
+	out = append(out, xmlb[loc[1]:]...)
+	wb.files[sheet.Path] = out
+}
+
 // SetNumber overwrites (or creates) a cell with a plain number in the sheet XML.
 // The element prefix (none, or "x:" in some SDK workbooks) is taken from the sheet itself.
 func (wb *Workbook) SetNumber(sheet *Sheet, row, col int, value string) error {
